@@ -102,6 +102,10 @@ QuerySet ==
     [] Universe = "cmp-self" -> {F(ECmp(op, Self, OLit(l))) : op \in Ops, l \in Lits} \cup {F(ECmp(op, OLit(l), Self)) : op \in Ops, l \in Lits}
                                 \cup {F(ETest(QAt(<<>>))), F(ENot(ETest(QAt(<<>>))))}
     [] Universe = "cmp-root" -> {FC(ECmp(op, RootK, At1(y_))) : op \in Ops} \cup {FC(ECmp(op, At1(y_), RootK)) : op \in Ops}
+                                \* the same root-dependent comparison below ! && || (evaluated on documents whose $.k differ)
+                                \cup {FC(ENot(ECmp(op, RootK, At1(y_)))) : op \in {"==", "<"}}
+                                \cup {FC(EAnd(ECmp(op, RootK, At1(y_)), ETest(QAt(<<Child(SName(y_))>>)))) : op \in {"==", ">="}}
+                                \cup {FC(EOr(ECmp("!=", At1(y_), RootK), ENot(ETest(QAt(<<Child(SName(y_))>>)))))}
     [] Universe = "shapes1" -> {FC(e) : e \in Level(Atoms)} \cup {FO(e) : e \in Level(Atoms)}
     [] Universe = "shapes2" -> {FC(e) : e \in Level(Level(AtomsSmall))}
     [] Universe = "functions" ->
